@@ -152,6 +152,9 @@ func init() {
 	reg(symPkg+"StrEq", func(m *Machine, fn *ssa.Function, args []Value) Value {
 		return m.in.Eq(args[0].(*Term), args[1].(*Term))
 	})
+	reg(symPkg+"StrContains", func(m *Machine, fn *ssa.Function, args []Value) Value {
+		return m.in.StrContains(args[0].(*Term), args[1].(*Term))
+	})
 	reg(symPkg+"IteInt64", func(m *Machine, fn *ssa.Function, args []Value) Value {
 		return m.in.Ite(args[0].(*Term), args[1].(*Term), args[2].(*Term))
 	})
@@ -165,6 +168,16 @@ func init() {
 		}
 		m.snaps = append(m.snaps, snap)
 		return m.in.I64(int64(len(m.snaps) - 1))
+	})
+	// Rollback(snap): discard every store write since the snapshot (second run of a two-run obligation)
+	reg(symPkg+"Rollback", func(m *Machine, fn *ssa.Function, args []Value) Value {
+		id := int(args[0].(*Term).iv.Int64())
+		snap := m.snaps[id]
+		for name, st := range m.w.stores {
+			n := snapLen(snap, name)
+			st.log = st.log[:n:n]
+		}
+		return nil
 	})
 	// At(snap, func()) runs f against the older state (reads only)
 	reg(symPkg+"At", func(m *Machine, fn *ssa.Function, args []Value) Value {
